@@ -182,7 +182,7 @@ class Cost:
                             e2, enum, labels, oth = switch_on(b, bb)
                         except Exception:
                             continue
-                        if e2.k == "discr" and enum == "std::option::Option" and "None" in labels and (is_self_field(e2.a[0], "inner") or (is_call(e2.a[0], "Option::<T>::as_mut") and is_self_field(e2.a[0].strip().a[0], "inner"))):
+                        if e2.k == "discr" and enum == "std::option::Option" and "None" in labels and (is_self_field(e2.a[0], "inner") or (is_call(e2.a[0], "Option::<T>::as_mut", "Option::<T>::take", "Option::<T>::as_ref", "Option::<T>::as_deref_mut") and is_self_field(e2.a[0].strip().a[0], "inner"))):
                             dead |= {x for x in b.normal_blocks() if b.dominates(labels["None"], x)}
         wreg = self._warm_regions(b)
         # 2. block weights
@@ -323,7 +323,7 @@ def r34_cost(ck, F):
     ini = F.body(A("ibc_initial"))
     pushes = [s for s, c, t in calls(ini, "Vec::<T, A>::push")]
     ck.ob(R3, "per-level-vector-has-D-elements", len(pushes) == 1 and ini.in_loop(pushes[0].bb) and table[A("ibc_initial")][0] == (1, 0), f"initial_index_blocks pushes one (tag, cursor) per iteration of its 0..D loop and costs {pstr(table[A('ibc_initial')][0])}", ini)
-    growers = sorted({b.path for b in F.user_bodies() for s, c, t in b.calls() if callee_name(c).rsplit("::", 1)[-1] in ("push", "extend", "insert", "append", "resize") and b.arg_exprs(s) and any(x.k == "field" and x.x["name"] == "inner" and x.x.get("adt") == A("ibc_struct") for x in b.arg_exprs(s)[0].walk())})
+    growers = sorted({b.path for b in F.user_bodies() for s, c, t in b.calls() if callee_name(c).rsplit("::", 1)[-1] in ("push", "extend", "insert", "append", "resize") and "Vec" in callee_name(c) and b.arg_exprs(s) and any(x.k == "field" and x.x["name"] == "inner" and x.x.get("adt") == A("ibc_struct") for x in b.arg_exprs(s)[0].walk())})
     ck.ob(R3, "vector-never-grows-elsewhere", not growers, f"the per-level vector is never extended after construction ({growers})", config=F.config)
     ck.extra.setdefault("cost_table", {})[F.config] = {p.split("::")[-1] if not p.startswith(rc) else "ReaderCursor::" + p.split("::")[-1]: {"cold": pstr(v[0]), "warm": pstr(v[1])} for p, v in table.items()}
     # R4: the bound
